@@ -28,6 +28,20 @@ type baseVar struct {
 	K64    uint64 `json:"k64,omitempty"`
 	Inline bool   `json:"inline,omitempty"`
 	Local  uint32 `json:"local"`
+	// Kind "wrapx": an i32 produced from an i64 whose upper half the engine
+	// must ignore; Shape says how: plain (wrap p2) shr0 addv val exts global
+	// select call blockparam loopparam tee load.
+	Shape string `json:"shape,omitempty"`
+	Fixed bool   `json:"fixed,omitempty"` // K was placed by the template family, do not re-draw
+}
+
+// selectBit is the bit of sel that the "select" shape tests.
+const selectBit = 0x40000000
+
+// lateDef: the local is defined by an access step (local.tee at its first
+// use / wrap of a loaded i64), not in the prologue.
+func (v *baseVar) lateDef() bool {
+	return v.Kind == "wrapx" && (v.Shape == "tee" || v.Shape == "load")
 }
 
 func (v *baseVar) describe() string {
@@ -38,6 +52,8 @@ func (v *baseVar) describe() string {
 		return "const"
 	case "lconst":
 		return "const-in-local"
+	case "wrapx":
+		return "wrapped-i64:" + v.Shape
 	}
 	if v.Inline {
 		return "computed-inline:" + v.Kind
@@ -74,6 +90,11 @@ type step struct {
 	Else []step   `json:"else,omitempty"`
 	Arms [][]step `json:"arms,omitempty"`
 	Ctr  uint32   `json:"ctr,omitempty"` // loop counter local
+	// HasElse: emit the else even when empty. TeeDef: this access defines its
+	// base var (expr; local.tee). Def>0: i64.load whose wrapped result defines base var Def-1.
+	HasElse bool `json:"has_else,omitempty"`
+	TeeDef  bool `json:"tee_def,omitempty"`
+	Def     int  `json:"def,omitempty"`
 }
 
 type template struct {
@@ -89,7 +110,10 @@ type template struct {
 	ResTypes []wenc.ValType `json:"res_types"`
 	NAccess  int            `json:"n_access"`
 	nLocals  []wenc.ValType
-	limit    int // >0: accesses with a larger id are not emitted (crash localisation)
+	limit    int    // >0: accesses with a larger id are not emitted (crash localisation)
+	Family   string `json:"family,omitempty"`
+	wrapFn   uint32 // index of (func (param i64) (result i32) local.get 0 i32.wrap_i64)
+	blockT   uint32 // type index of [i32] -> [i32]
 }
 
 var memSizes = []uint32{0, 1, 2, 3, 32767, 32768, 32769, 40000, 65535, 65536}
@@ -206,6 +230,9 @@ func genTemplate(r *core.Rng) *template {
 	t.Data = r.Bytes(r.Intn(80))
 	size := uint64(t.InitPages) * pageSize
 
+	if r.Chance(1, 4) {
+		return genWrapFamily(r, t, size)
+	}
 	// base vars
 	nv := 1 + r.Intn(3)
 	for i := 0; i < nv; i++ {
@@ -300,7 +327,7 @@ func genTemplate(r *core.Rng) *template {
 	ceil, atomic := t.ceilings(0)
 	for i := range t.Vars {
 		v := &t.Vars[i]
-		if v.Kind != "const" && v.Kind != "lconst" {
+		if (v.Kind != "const" && v.Kind != "lconst") || v.Fixed {
 			continue
 		}
 		if r.Chance(3, 5) {
@@ -312,6 +339,170 @@ func genTemplate(r *core.Rng) *template {
 			v.K = uint32(pickAddr(r, size, uint64(1<<r.Intn(4))))
 		}
 	}
+	return t
+}
+
+var wrapShapes = []string{"plain", "shr0", "addv", "val", "exts", "global", "select", "call", "blockparam", "loopparam", "tee", "load"}
+
+// genWrapFamily: the "wrapped i64" family. The base address is an i32 whose
+// defining instruction leaves the upper half of the 64-bit register
+// unspecified unless the engine zero-extends it (i32.wrap_i64 of a
+// parameter / global / load result / i64 arithmetic result / sign-extended
+// i32, select of wrapped values, local.tee, call result, block or loop
+// parameter). It is used for a first access and then for repeat accesses of
+// the same value after an if/else merge, a br_if continuation, a loop header
+// (several iterations), a br_table, a call, a memory.grow. The tuples give the
+// i64 source a non-zero upper half while the low half is in bounds.
+func genWrapFamily(r *core.Rng, t *template, size uint64) *template {
+	t.Family = "wrapped-i64:"
+	if t.InitPages == 0 { // the point is in-bounds low halves
+		t.InitPages = uint32(1 + r.Intn(3))
+		if t.MaxPages < t.InitPages {
+			t.MaxPages = t.InitPages + uint32(r.Intn(3))
+		}
+		size = uint64(t.InitPages) * pageSize
+	}
+	shape := wrapShapes[r.Intn(len(wrapShapes))]
+	next := uint32(nPar)
+	newVarLocal := func() uint32 {
+		t.nLocals = append(t.nLocals, wenc.I32)
+		next++
+		return next - 1
+	}
+	t.Vars = []baseVar{{Kind: "wrapx", Shape: shape, Local: newVarLocal()}}
+	other := baseVar{Kind: "p1", Local: lP1}
+	if shape == "exts" || r.Bool() {
+		other = baseVar{Kind: "lconst", K: uint32(64 + 8*r.Intn(64)), Fixed: true, Local: newVarLocal()}
+	}
+	t.Vars = append(t.Vars, other)
+	g := &tgen{r: r, t: t, size: size, nextLocal: next, budget: 8}
+	var out []step
+	if shape == "load" {
+		// i64.store p2 at a fixed in-bounds place, load it back, wrap -> base var 0
+		c := baseVar{Kind: "lconst", K: uint32(1024 + 8*r.Intn(64)), Fixed: true, Local: g.newLocal(wenc.I32)}
+		t.Vars = append(t.Vars, c)
+		st := g.accessOf(opByName["i64.store"])
+		st.Var, st.Off, st.Align, st.ValKind = 2, 0, 3, "p2"
+		t.NAccess++
+		ld := step{Kind: "access", ID: t.NAccess, Op: "i64.load", Var: 2, Align: 3, Res: -1, SrcVar: -1, Def: 1, ValKind: "const"}
+		out = append(out, st, ld)
+	}
+	// first access: the widest one, so that the repeats are covered by its bound
+	pickPlain := func(maxW uint32) *memOp {
+		for {
+			o := g.pickOp()
+			if o.Width == 0 {
+				if maxW == 0 || r.Chance(1, 6) {
+					return o
+				}
+				continue
+			}
+			if maxW == 0 || o.Width <= maxW {
+				return o
+			}
+		}
+	}
+	a := g.accessOf(pickPlain(0))
+	a.Var = 0
+	ao := opByName[a.Op]
+	switch r.Intn(10) {
+	case 0, 1, 2, 3, 4:
+		a.Off = 0
+	case 5, 6, 7:
+		a.Off = uint32(r.Intn(64))
+	default:
+		a.Off = uint32(pickInb(r, size, 16)) / 2
+	}
+	if ao.Atomic {
+		a.Off &^= ao.Width - 1
+	}
+	if ao.Width == 0 {
+		a.Off = 0
+		a.NKind = "const"
+		a.N = uint32(r.Intn(64))
+	}
+	if shape == "tee" {
+		a.TeeDef = true
+	}
+	out = append(out, a)
+	ceilW := ao.Width
+	if ceilW == 0 {
+		ceilW = 16
+	}
+	repeat := func() step {
+		b := g.accessOf(pickPlain(ceilW))
+		b.Var = 0
+		bo := opByName[b.Op]
+		if bo.Width == 0 {
+			b.NKind = "const"
+			b.N = uint32(r.Intn(int(ceilW) + 1))
+			if b.SrcVar >= 0 {
+				b.SrcVar = 0
+			}
+			return b
+		}
+		b.Off = a.Off
+		if ao.Width > bo.Width {
+			b.Off += uint32(r.Intn(int(ao.Width-bo.Width)+1)) &^ (bo.Width - 1)
+		}
+		if bo.Atomic {
+			b.Off &^= bo.Width - 1
+		}
+		return b
+	}
+	otherAccess := func() step {
+		b := g.accessOf(pickPlain(16))
+		b.Var = 1
+		if opByName[b.Op].Width == 0 {
+			b.NKind, b.N = "const", uint32(r.Intn(16))
+			if b.SrcVar >= 0 {
+				b.SrcVar = 1
+			}
+		} else {
+			b.Off = uint32(r.Intn(32)) &^ (opByName[b.Op].Width - 1)
+		}
+		return b
+	}
+	n := 1 + r.Intn(3)
+	for i := 0; i < n; i++ {
+		switch r.Intn(12) {
+		case 0, 1:
+			out = append(out, step{Kind: "if", Bit: g.bit(), HasElse: true})
+		case 2:
+			out = append(out, step{Kind: "if", Bit: g.bit(), HasElse: true, Body: []step{repeat()}})
+		case 3:
+			out = append(out, step{Kind: "if", Bit: g.bit(), HasElse: true, Body: []step{repeat()}, Else: []step{otherAccess()}})
+		case 4:
+			out = append(out, step{Kind: "if", Bit: g.bit(), HasElse: r.Bool()})
+		case 5:
+			out = append(out, step{Kind: "brif", Bit: g.bit()})
+		case 6:
+			out = append(out, step{Kind: "brif", Bit: g.bit(), Body: []step{repeat()}})
+		case 7:
+			l := step{Kind: "loop", Bit: g.bit(), Ctr: g.newLocal(wenc.I32), Body: []step{repeat()}}
+			l.N = uint32(2 + r.Intn(3))
+			if r.Chance(1, 3) {
+				l.Body = append(l.Body, step{Kind: "call", Callee: "nop"})
+			}
+			out = append(out, l)
+		case 8:
+			bt := step{Kind: "brtable", Bit: g.bit()}
+			g.bit()
+			bt.Arms = [][]step{nil, {repeat()}}
+			if r.Bool() {
+				bt.Arms = append(bt.Arms, []step{otherAccess()})
+			}
+			out = append(out, bt)
+		case 9:
+			out = append(out, step{Kind: "call", Callee: []string{"nop", "hostnop"}[r.Intn(2)]})
+		case 10:
+			out = append(out, step{Kind: "call", Callee: []string{"grow", "hostgrow"}[r.Intn(2)], Pages: uint32(r.Intn(2))})
+		case 11:
+			out = append(out, step{Kind: "grow", Pages: uint32(r.Intn(2))})
+		}
+		out = append(out, repeat())
+	}
+	t.Steps = out
 	return t
 }
 
@@ -679,7 +870,7 @@ func (t *template) ceilings(p1 uint32) (ceil []uint64, atomic []bool) {
 // "distinct templates" evidence is the number of distinct shapes.
 func (t *template) shape() string {
 	var sb strings.Builder
-	fmt.Fprintf(&sb, "mem=%d/%v/%v/%v|", t.InitPages, t.HasMax, t.Shared, t.Imported)
+	fmt.Fprintf(&sb, "%smem=%d/%v/%v/%v|", t.Family, t.InitPages, t.HasMax, t.Shared, t.Imported)
 	for _, v := range t.Vars {
 		sb.WriteString(v.describe() + ";")
 	}
@@ -795,7 +986,10 @@ func (t *template) module() []byte {
 		m.Mems = []wenc.Limits{t.limits()}
 		m.Exports = append(m.Exports, wenc.Export{Name: "mem", Kind: wenc.ExtMemory, Idx: 0})
 	}
-	m.Globals = []wenc.Global{{Type: wenc.GlobalType{Type: wenc.I32, Mutable: true}, Init: wenc.ConstI32(0)}}
+	m.Globals = []wenc.Global{{Type: wenc.GlobalType{Type: wenc.I32, Mutable: true}, Init: wenc.ConstI32(0)},
+		{Type: wenc.GlobalType{Type: wenc.I64, Mutable: true}, Init: wenc.ConstI64(0)}}
+	t.blockT = m.AddType([]wenc.ValType{wenc.I32}, []wenc.ValType{wenc.I32})
+	t.wrapFn = t.indices().probe + 1
 	m.Exports = append(m.Exports, wenc.Export{Name: "progress", Kind: wenc.ExtGlobal, Idx: 0})
 	m.Datas = []wenc.Data{{Mode: 1, Bytes: t.Data}}
 	m.DataCount = true
@@ -811,7 +1005,7 @@ func (t *template) module() []byte {
 	c.I32Const(0).GlobalSet(0) // progress: no access started yet
 	for i := range t.Vars {
 		v := &t.Vars[i]
-		if v.Inline || v.Kind == "p0" || v.Kind == "p1" || v.Kind == "const" {
+		if v.Inline || v.Kind == "p0" || v.Kind == "p1" || v.Kind == "const" || v.lateDef() {
 			continue
 		}
 		t.emitExpr(c, v)
@@ -827,7 +1021,8 @@ func (t *template) module() []byte {
 	// probe: byte load at the address given
 	p := m.AddFunc([]wenc.ValType{wenc.I32}, []wenc.ValType{wenc.I32}, nil, (&wenc.Code{}).LocalGet(0).Mem(0x2d, 0, 0).End().B)
 	m.ExportFunc("probe", p)
-	if f != x.f || p != x.probe {
+	w := m.AddFunc([]wenc.ValType{wenc.I64}, []wenc.ValType{wenc.I32}, nil, (&wenc.Code{}).LocalGet(0).Op(0xa7).End().B)
+	if f != x.f || p != x.probe || w != t.wrapFn {
 		panic("function index bookkeeping")
 	}
 	return m.Encode()
@@ -847,6 +1042,31 @@ func (t *template) emitExpr(c *wenc.Code, v *baseVar) {
 		c.LocalGet(lP2).Op(0xa7)
 	case "wrap_add":
 		c.LocalGet(lP2).I64Const(int64(v.K64)).Op(0x7c).Op(0xa7)
+	case "wrapx":
+		switch v.Shape {
+		case "plain", "tee":
+			c.LocalGet(lP2).Op(0xa7)
+		case "shr0":
+			c.LocalGet(lP2).I64Const(0).Op(0x88).Op(0xa7)
+		case "addv":
+			c.LocalGet(lP2).LocalGet(lVal).Op(0x7c).Op(0xa7)
+		case "val":
+			c.LocalGet(lVal).Op(0xa7)
+		case "exts":
+			c.LocalGet(lP0).Op(0xac).Op(0xa7)
+		case "global":
+			c.LocalGet(lP2).GlobalSet(1).GlobalGet(1).Op(0xa7)
+		case "select":
+			c.LocalGet(lP2).Op(0xa7).LocalGet(lVal).Op(0xa7).LocalGet(lSel).I32Const(selectBit).Op(0x71).Select()
+		case "call":
+			c.LocalGet(lP2).Call(t.wrapFn)
+		case "blockparam":
+			c.LocalGet(lP2).Op(0xa7).BlockT(0x02, t.blockT).End()
+		case "loopparam":
+			c.LocalGet(lP2).Op(0xa7).BlockT(0x03, t.blockT).End()
+		default:
+			panic("emitExpr wrapx " + v.Shape)
+		}
 	default:
 		panic("emitExpr " + v.Kind)
 	}
@@ -891,7 +1111,7 @@ func (t *template) emitSteps(c *wenc.Code, ss []step, x funcIdx, resBase uint32)
 		case "if":
 			c.LocalGet(lSel).I32Const(int32(1) << s.Bit).Op(0x71).If(0x40)
 			t.emitSteps(c, s.Body, x, resBase)
-			if s.Else != nil {
+			if s.Else != nil || s.HasElse {
 				c.Else()
 				t.emitSteps(c, s.Else, x, resBase)
 			}
@@ -903,7 +1123,11 @@ func (t *template) emitSteps(c *wenc.Code, ss []step, x funcIdx, resBase uint32)
 			c.End()
 		case "loop":
 			// ctr = 1 + ((sel >> bit) & 1)
-			c.LocalGet(lSel).I32Const(int32(s.Bit)).Op(0x76).I32Const(1).Op(0x71).I32Const(1).Op(0x6a).LocalSet(s.Ctr)
+			if s.N > 0 {
+				c.I32Const(int32(s.N)).LocalSet(s.Ctr)
+			} else {
+				c.LocalGet(lSel).I32Const(int32(s.Bit)).Op(0x76).I32Const(1).Op(0x71).I32Const(1).Op(0x6a).LocalSet(s.Ctr)
+			}
 			c.Loop(0x40)
 			t.emitSteps(c, s.Body, x, resBase)
 			c.LocalGet(s.Ctr).I32Const(1).Op(0x6b).LocalTee(s.Ctr).BrIf(0)
@@ -947,6 +1171,10 @@ func emitConst(c *wenc.Code, ty wenc.ValType, lo, hi uint64) {
 }
 
 func (t *template) emitOperand(c *wenc.Code, s *step, ty wenc.ValType) {
+	if s.ValKind == "p2" { // i64 stores only
+		c.LocalGet(lP2)
+		return
+	}
 	if s.ValKind == "param" {
 		switch ty {
 		case wenc.I32:
@@ -969,7 +1197,12 @@ func (t *template) emitAccess(c *wenc.Code, s *step, resBase uint32) {
 		return
 	}
 	c.GlobalGet(0).I32Const(1).Op(0x6a).GlobalSet(0) // progress = number of accesses started
-	t.emitVar(c, s.Var)
+	if s.TeeDef {
+		t.emitExpr(c, &t.Vars[s.Var])
+		c.LocalTee(t.Vars[s.Var].Local)
+	} else {
+		t.emitVar(c, s.Var)
+	}
 	memarg := func() {
 		if o.Prefix == 0 {
 			c.Mem(byte(o.Code), s.Align, s.Off)
@@ -1023,7 +1256,9 @@ func (t *template) emitAccess(c *wenc.Code, s *step, resBase uint32) {
 		t.emitN(c, s)
 		c.Prefixed(0xfc, 8).U32(0).Op(0)
 	}
-	if s.Res >= 0 {
+	if s.Def > 0 {
+		c.Op(0xa7).LocalSet(t.Vars[s.Def-1].Local)
+	} else if s.Res >= 0 {
 		c.LocalSet(resBase + uint32(s.Res))
 	}
 }
